@@ -35,6 +35,14 @@ type remapClusterCase struct {
 	// Bursts: indices i such that ops[i] and ops[i+1] (two creates on one node, one bound and one unbound) run
 	// concurrently while every other engine update is delayed by 25 ms: their two remaps follow each other closely
 	Bursts []int `json:"concurrent_pairs_at,omitempty"`
+	// PartFail: ops[i] is a deployment of several instances on one node of which the engine rejects every n-th, so that
+	// it fails partly; optionally giving back the failed instances' resources fails too (second fault)
+	PartFail map[int]*remapPartFail `json:"partly_failing_deployments_at,omitempty"`
+}
+
+type remapPartFail struct {
+	FailCreateEvery int64          `json:"engine_rejects_every_nth_create"`
+	Fault           *sim.FaultPlan `json:"fault,omitempty"`
 }
 
 func engineCPU(p resourcetypes.Resources) (cores string, remap bool, ok bool) {
@@ -214,7 +222,36 @@ func c32Cluster(t *testing.T, env *vkit.Env, rec *vkit.Rec, replay *remapCluster
 				mixed = true
 				continue
 			}
-			res := w.exec(op, nil)
+			var plan *sim.FaultPlan
+			pf := cs.PartFail[oi]
+			var pfHost *sim.Host
+			if pf != nil && len(op.Includes) == 1 {
+				if pfHost = sim.GetHost(sim.Prefix + op.Includes[0]); pfHost != nil {
+					atomic.StoreInt64(&pfHost.FailCreateEvery, pf.FailCreateEvery)
+				}
+				if pf.Fault != nil {
+					cp := *pf.Fault
+					plan = &cp
+				}
+			}
+			res := w.exec(op, plan)
+			if pfHost != nil {
+				atomic.StoreInt64(&pfHost.FailCreateEvery, 0)
+				okN, failN := 0, 0
+				for _, p := range res.Parts {
+					if p.OK {
+						okN++
+					} else {
+						failN++
+					}
+				}
+				if okN > 0 && failN > 0 {
+					rec.Count("cluster/partly_failed_deployments", 1)
+					if plan.Fired() {
+						rec.Count("cluster/partly_failed_deployments_whose_give_back_failed", 1)
+					}
+				}
+			}
 			rec.Count("cluster/ops/"+op.Kind, 1)
 			if res.TimedOut {
 				rec.Inconclusive("op %s timed out", op.Kind)
@@ -265,6 +302,20 @@ func c32Cluster(t *testing.T, env *vkit.Env, rec *vkit.Rec, replay *remapCluster
 				}
 				cs.Bursts = append(cs.Bursts, len(cs.Ops))
 				cs.Ops = append(cs.Ops, a, b)
+				continue
+			}
+			if k%7 == 3 { // a deployment of several bound instances on one node that fails partly
+				node := topo.Nodes[r.Intn(len(topo.Nodes))]
+				if cs.PartFail == nil {
+					cs.PartFail = map[int]*remapPartFail{}
+				}
+				pf := &remapPartFail{FailCreateEvery: 2}
+				if r.Intn(2) == 0 {
+					pf.Fault = &sim.FaultPlan{Kind: "fail", Match: "rmgr.RollbackAlloc", Index: 1}
+				}
+				cs.PartFail[len(cs.Ops)] = pf
+				cs.Ops = append(cs.Ops, sim.Op{Kind: "create", App: "app", Entry: "web", Pod: node.Pod, Strategy: "AUTO", Count: 2 + r.Intn(2), Includes: []string{node.Name},
+					Res: sim.Res{Bind: true, CPU: []float64{0.5, 1}[r.Intn(2)], Memory: 1 << 24}})
 				continue
 			}
 			cs.Ops = append(cs.Ops, c32GenOp(r, topo))
